@@ -31,7 +31,7 @@ ASSUMPTIONS = [
     "Measurement-value predicates are boolean-valued expressions built with the documented operators (no Python and/or/not).",
     "No postselection inside conditionals' measurements (covered by the MCM properties).",
 ]
-BUDGET = {"quick": {"examples": 1500}, "thorough": {"examples": 100000, "shards": 16}}
+BUDGET = {"quick": {"examples": 1200}, "thorough": {"examples": 100000, "shards": 16}}
 SHRINK_LISTS = ("body", "steps", "true", "false", "meas", "init", "upd", "args")
 
 G1P = ["RX", "RY", "RZ", "PhaseShift"]
